@@ -32,8 +32,9 @@ def run(ctx):
     ex = ThreadPoolExecutor(max_workers=4)
     inv = "INVARIANTS TypeOK NoResidue QueuePresent QueueConsistent WatchdogOfGrant\nPROPERTIES NoWatchdogResidue\n"
     f1 = ex.submit(ctx.tlc, "MC_Lock", cfg_text=lc.mc_cfg(2, 2, 2, None, inv), name="mc-2p2k", workers=2, timeout=6000)
-    f2 = ex.submit(ctx.tlc, "MC_Lock", cfg_text=lc.mc_cfg(3, 2 if thorough else 1, 2, None, inv), name="mc-3p", workers=8 if thorough else 4, timeout=12000,
-                   heap="8g", coverage=thorough)
+    f2 = ex.submit(ctx.tlc, "MC_Lock", cfg_text=lc.mc_cfg(3, 1, 2, None, inv), name="mc-3p", workers=4, timeout=12000, coverage=thorough)
+    f2b = ex.submit(ctx.tlc, "MC_Lock", cfg_text=lc.mc_cfg(3, 2, 2, None, inv.split("PROPERTIES")[0]), name="mc-3p2k-safety", workers=8, timeout=20000,
+                    heap="8g") if thorough else None
     f3 = ex.submit(ctx.tlc, "MC_Lock", cfg_text=lc.mc_cfg(2, 2, 2, lc.QNP, inv), name="mc-asbuilt-witness", workers=1, timeout=3000, count_states=False)
     gf = ex.submit(lc.export_tests, ctx, 2, 2, 2, 4, "edges-g2p2k")
     for f, nm in ((f1, "mc_2p2k"), (f2, "mc_3p")):
@@ -43,6 +44,11 @@ def run(ctx):
         ctx.extra[nm] = r.summary()
         if nm == "mc_3p" and thorough and r.coverage_zero:
             ctx.extra["coverage_zero"] = r.coverage_zero[:12]
+    if f2b is not None:
+        r = f2b.result()
+        if not r.ok:
+            raise vlib.Inconclusive("strict Lock spec (3 callers x 2 keys) does not satisfy NoResidue: %s %s" % (r.violated, (r.error or "")[:300]))
+        ctx.extra["mc_3p2k_safety"] = r.summary()
     r = f3.result()
     if r.ok or r.violated != "NoResidue":
         raise vlib.Inconclusive("as-built Lock spec (QueuesNeverPruned) should violate NoResidue, got ok=%s violated=%s" % (r.ok, r.violated))
